@@ -1,0 +1,14 @@
+//go:build !verif
+
+// Purpose: No-op scheduling hooks (production build).
+// Exports: none.
+// Role: Keeps hook call sites free when the `verif` build tag is off.
+// Invariants: Both functions are empty and inlined away.
+// Notes: The real implementation lives in verif_on.go (build tag `verif`).
+package ergo
+
+import "os"
+
+func verifPoint(string) {}
+
+func verifScanPoint(*os.File) {}
